@@ -11,7 +11,7 @@ import numpy as np
 from .. import proto
 from ..proto import enc, hexs, unhex
 from ..engine import Finding, Timeout
-from .c02 import guarded, enc_table, enc_dictable, dec_table, keq, cell, NAN, SNAN
+from .c02 import guarded, enc_table, enc_dictable, dec_table, keq, cell, NAN, SNAN, XNAN
 import pyg_base  # noqa: E402
 
 logging.getLogger('pyg').setLevel(logging.ERROR)
@@ -93,11 +93,12 @@ YPOOLS = [(['p', 'q', 'r'], 'str'), ([1, 2, 3], 'int'), (['p', 1, 'q', 2], 'str-
           ([0.5, 1.5, 2.5, -0.25], 'float'), ([D(2020, 1, 1), D(2020, 1, 2, 12), D(2021, 5, 5)], 'datetime'),
           ([None, 'p', 'q'], 'none'), ([None, 1.5, 'p', D(2020, 1, 1), 2], 'mixed'), (['1.5', 1.5, 'None', None], 'str-vs-object'),
           ([1, 1.0, 2.5, 2], 'int-float-equal'),
+          ([NAN, NAN, 'p'], 'nan-fresh'), ([SNAN, SNAN, 1.5], 'nan-shared'), ([NAN, SNAN, XNAN, 2], 'nan-mixed'),
           ([1, '1', 2], 'collide-int-str'), ([1, '1', 'p', -3, '-3'], 'collide-int-str'), (['a', 'p', 'q'], 'collide-x-name')]
 
 
 def gen_pivot(rng):
-    n = rng.choice([1, 2, 3, 4, 5, 6, 8])
+    n = rng.choice([0, 1, 2, 3, 4, 5, 6, 8])      # 0: a table with columns and no rows
     nx = rng.choice([1, 1, 2])
     xn = ['a', 'b'][:nx]
     t = [(k, [rng.choice(rng.sample(KEYS, 3) if rng.random() < 0.8 else KEYS) for _ in range(n)]) for k in xn]
@@ -112,13 +113,15 @@ def gen_pivot(rng):
     if rng.random() < 0.3:     # unique (x, y): the invertible case
         seen, keep = set(), []
         for i in range(n):
-            k = tuple(enc(c[1][i]) for c in t[:nx + 1])
+            k = tuple(cell(c[1][i]) for c in t[:nx + 1])
             k = tuple(proto.canon_cell(a) for a in k)
             if k not in seen:
                 seen.add(k)
                 keep.append(i)
         t = [(k, [v[i] for i in keep]) for k, v in t]
     agg = rng.choice(['none', 'len', 'first', 'last', 'last'])
+    if n == 0:
+        ykind = 'empty'
     return t, xn, agg, ykind
 
 
@@ -150,7 +153,10 @@ def generate(rng, tier):
 
 
 def key_name(k):
-    """a column key of a pivot table as the model names it: a string is its own name, any other key (float, datetime, None) is U+0000 + its wire atom"""
+    """a column key of a pivot table as the model names it: a string is its own name, any other key (float, datetime, None) is U+0000 + its wire atom
+    (a NaN key of any identity / numpy type: U+0000 F:nan)"""
+    if isinstance(k, float) and k != k:
+        return '\x00F:nan'
     return k if isinstance(k, str) else '\x00' + enc(k)
 
 
